@@ -332,10 +332,11 @@ PROPS["C07"] = {
     "level": "fault_enumeration",
     "rule": ("backend-ops: rapid sequences of 1-8 operations on the real FileSystemCache: complete writes, writes whose reader fails at chunk k, pairs of CONCURRENT writes of one key whose readers are gated chunk by chunk by a generated interleaving (one of them optionally failing), deletes; after every operation each key must be absent or hold exactly one complete content of a completed write (never a prefix, never a mixture). "
              "cas-ops: sequences of Cas.Write over a fault-injecting in-memory backend, including two simultaneous writes of one digest where the first backend write is held until the second Write has returned and either may fail; a Write that returned nil must leave the blob retrievable with its exact content. "
+             "op-faults (fault enumeration): the executor assembled in-process exactly as RunBuild does, over a backend decorator that numbers every Get/Set/Exists/Delete; for a cold build and for a partial rebuild on a warm cache, for every 5th (quick) / EVERY (thorough) backend operation n and each of {error returned, process killed before the operation, process killed after it} the build is repeated in a child process; afterwards the cache directory must pass the audit and the next fault-free build must succeed with byte-exact outputs. "
              "crash-in-set: a child process dies from SIGKILL inside Set after k chunks (k = 0..12), over an absent or an existing key; afterwards the key holds the old complete content, the new complete content, or nothing. "
              "kill-histories: real-binary histories (targets with 0.2-3 MiB outputs, dir outputs, blobs shared between targets) where builds are killed with SIGKILL (whole process group) after 0-1500 ms or run with an unwritable blob store; after EVERY invocation the cache directory is audited "
              "(each cas/<d> re-hashes to d; each target/<k> decodes, has change_hash k and references only present blobs incl. every file node of every tree) and every later fault-free build must exit 0 with byte-exact outputs. "
-             "Non-trivial = backend-ops: a failed or concurrent write occurred; crash: always; kill-histories: the kill landed while a target was running or after one finished, or a storage fault was injected; distinct by full case."),
+             "Non-trivial = backend-ops: a failed or concurrent write occurred; crash and op-faults: always; kill-histories: the kill landed while a target was running or after one finished, or a storage fault was injected; distinct by full case."),
     "assumptions": [
         "leftover tmp-* files are not visible under any key and are not violations",
         "kill times are sampled (no yield points inside the binary); the in-process parts enumerate chunk positions 0..12 of the copy loop",
@@ -348,6 +349,8 @@ PROPS["C07"] = {
          "quick": {"shards": 8, "checks": 4000, "cap": 900}, "thorough": {"shards": 16, "checks": 100000, "cap": 7200}},
         {"name": "cas-ops", "pkg": "c07", "test": "TestCasOps",
          "quick": {"shards": 4, "checks": 4000, "cap": 600}, "thorough": {"shards": 8, "checks": 200000, "cap": 3600}},
+        {"name": "op-faults", "pkg": "c07", "test": "TestOpFaults",
+         "quick": {"shards": 12, "checks": 12, "cap": 1500, "shrinktime": "60s"}, "thorough": {"shards": 32, "checks": 96, "cap": 14400, "shrinktime": "120s"}},
         {"name": "crash-in-set", "pkg": "c07", "test": "TestCrashInSet",
          "quick": {"shards": 8, "checks": 400, "cap": 900}, "thorough": {"shards": 16, "checks": 8000, "cap": 7200}},
         {"name": "kill-histories", "pkg": "c07", "test": "TestKillHistories", "binary": True,
